@@ -278,6 +278,24 @@ def int_alias_discipline(chk: Check) -> None:
         chk.ob('OWN-interrupt-action', f, f.qualname == 'processes.Process._set_interrupt_action',
                '_interrupt_action is replaced only through _set_interrupt_action (which cancels the previous action)', node=node,
                kind='writer', expr='_interrupt_action store')
+    # who may FORGET a requested pause: while a deferred kill is pending, the only thing that keeps a further pause() from installing its action over the kill is
+    # that an earlier, since superseded, pause request is still remembered in _pausing (pause() then returns early).  The marker is dropped by the pause protocol
+    # alone -- play() withdrawing the pause, _do_pause completing it, on_pausing / on_paused taking effect, a fresh or reloaded object -- never as a side effect of
+    # installing another action (a who-may-write table, confirmed by reading; the hazard it fences in is the known finding G5, which a further reset would widen)
+    from ..rules import effective_funcs as _ef
+    FORGET_OK = ('processes.Process.play', 'processes.Process._do_pause', 'processes.Process.on_pausing', 'processes.Process.on_paused', 'processes.Process.__init__',
+                 'processes.Process.init', 'processes.Process.load_instance_state')
+    n_forget = 0
+    for f in _ef(prog):
+        if isinstance(f.node, ast.Lambda):
+            continue
+        for st in (x for b in f.node.body for x in walk_shallow(b) if isinstance(x, ast.Assign)):
+            if any(is_self_attr(t, '_pausing') for t in st.targets) and isinstance(st.value, ast.Constant) and st.value.value is None:
+                n_forget += 1
+                chk.ob('INT-alias', f, f.qualname in FORGET_OK, f'{f.short} forgets the requested pause (_pausing = None): only the pause protocol does that (play withdraws it, _do_pause completes it)'
+                       + ('' if f.qualname in FORGET_OK else ' -- here it is forgotten as a side effect: with a kill pending, the next pause() no longer returns early and installs its action OVER the kill '
+                          '(pause, kill, pause loses the kill)'), node=st, kind='pause-forgotten-only-by-pause-protocol', expr=f'{f.short}: _pausing = None')
+    chk.floor('INT-alias:pause-forgotten-sites', n_forget, 2)
     sia = prog.func('processes.Process._set_interrupt_action')
     cancels = [c for c in calls_in_func(sia, 'cancel')]
     chk.info('INT-alias', f'_set_interrupt_action cancels the previous action: {bool(cancels)}')
